@@ -73,6 +73,7 @@ func (c *Combo) Normalize(normalizers Normalizers) {
 }
 
 func (c *Combo) calculate(country l10n.TaxCountryCode, tags []cbc.Key, date cal.Date) error {
+	own := country
 	if c.Country == country {
 		c.Country = ""
 	} else if c.Country != "" {
@@ -82,7 +83,14 @@ func (c *Combo) calculate(country l10n.TaxCountryCode, tags []cbc.Key, date cal.
 	r := RegimeDefFor(country.Code())
 	if r == nil {
 		// if the tax regime is not yet defined, don't try to perform
-		// any extra calculations.
+		// any extra calculations. Whether the category is retained is taken
+		// from the document's own regime when it knows the category: the
+		// totals of a category must not depend on which of its rows comes first.
+		if or := RegimeDefFor(own.Code()); or != nil && c.Country != "" {
+			if cd := or.CategoryDef(c.Category); cd != nil {
+				c.retained = cd.Retained
+			}
+		}
 		return nil
 	}
 
